@@ -120,5 +120,29 @@ PROPS["C01"] = {
     "assumptions": ["times in [0, 100 h); text without line terminators or '-->'"],
 }
 
+PROPS["C02"] = {
+    "level_text": "Lean model of ReadFromWebVTT (header skipping, block state machine: NOTE comments, STYLE blocks with the CSS-brace heuristic, Region: lines, timing line + cue settings + region look-up, X-TIMESTAMP-MAP), parseTextWebVTT / parseTextWebVTTTextToken (tag stack over the partial x/net/html tokenizer model, voices, inline timestamps, the two regular expressions as hand-written recognisers) and WriteToWebVTT / Line.webVTTBytes / LineItem.webVTTBytes / cssColor (header, timestamp map, STYLE, sorted regions, settings with style fall-backs, tag emission), plus an independent WebVTT decoder (Spec.VTT.decode). Machine-checked for all inputs: the tag-emission law of the repaired writer (what a run leaves open is exactly the prefix the next run builds on, so tags are properly nested and the reader rebuilds every run's stack), escaping round trip and no '<' in written text, every written instant (cue boundaries, inline timestamps, LOCAL) reads back truncated to the millisecond, numbering / NOTE block placement, empty list refused, every region written ahead of the cues, blank line clears the tag stack and ends the block, inside a cue every line without '-->' is text, comment opening; cssColor table and recogniser examples by evaluation. The whole-document clauses (read of every rendering = what it denotes; write -> own reader and -> independent decoder = same things; cues numbered consecutively; region defined before use) are decided on every run by vtt.read / vtt.write: model vs implementation on generated ground truths (0..5 cues, 0..3 regions, STYLE blocks, timestamp map, comments, settings subsets, tag stacks of depth 0..3 with classes/annotations, inline timestamps, voices) x renderings (EOL kinds, BOM, mm:ss.ttt vs hh:mm:ss.ttt, ids present/absent, tabs/spaces before settings, header trailing text, blank padding, tags closed per line / left open over lines / until the end of the cue, timestamps before or after the tags), mutated documents, niche documents and the repository's test data, with the independent decoder evaluated on every case; vtt.tagre / vtt.texttok / vtt.tsmap / vtt.line tie the regular expressions, the text-token splitter, the timestamp-map parser/printer and the line writer function by function.",
+    "level_note": "Partial: the document-level round-trip statements are not proved in Lean (checked by correspondence + independent decoder on every generated case); the x/net/html tokenizer and the two regexps are hand-written models validated by lib.html, vtt.tagre, vtt.texttok (inputs outside the tokenizer class or with numbers that could overflow int64 are counted as unmodelled). Pinned defects repaired by fix: commits: D13 (STYLE order follows map iteration, nil InlineStyle panics / drops region setting), D14 (tag emission compared names only), inline timestamp lost when a tag follows it, </v> pops an unrelated tag, cue text lines starting with NOTE/STYLE/Region:/X-TIMESTAMP-MAP taken for block starts, a bare NOTE line not recognised. Out of the decoder's class (reported, not repaired): &gt; &lrm; &rlm; are not decoded by the library; STYLE blocks whose last line does not end with '}' swallow the next block (CSS heuristic); REGION blocks of the current standard are not in the library's dialect.",
+    "technique": "Lean 4 proof of the component laws (induction over tag stacks, list lemmas, reuse of the C01 escaping and C16 timestamp theorems, evaluation by decide) + differential correspondence with an independent Lean decoder as oracle",
+    "props": ["Astisub.Props.C02"],
+    "streams": [{"name": "vtt.read"}, {"name": "vtt.write"}, {"name": "lib.html"},
+                {"name": "vtt.tagre", "needs_hooks": True}, {"name": "vtt.texttok", "needs_hooks": True},
+                {"name": "vtt.tsmap", "needs_hooks": True}, {"name": "vtt.line", "needs_hooks": True}],
+    "trust": ["model: VTT.read/VTT.write hand-written from webvtt.go; Go.tokenize partial model of golang.org/x/net/html; Go.tagRe / Go.tsAt hand-written recognisers of webVTTRegexpTag / webVTTRegexpInlineTimestamp; UTF-8 transport by Lean's String.fromUTF8?/toUTF8"],
+    "assumptions": ["times in [0, 100 h); text without line terminators or '-->'; tag names alphanumeric, classes/annotations without markup characters; values of settings without white space or ':'"],
+}
+
+PROPS["C04"] = {
+    "level_text": "Complete Lean model of the repaired ReadFromSSA / WriteToSSA (section switch, script info, Format-driven style and event rows, colour radix, boolean / integer / float fields, text splitting at \\N / \\n and at {...} override blocks with the library's greedy regular expression as a hand-written recogniser, '*'-prefixed style references, writer with union Format in sorted style order, fixed events Format, v4 / v4+ switch) over exact models of strconv.ParseFloat (plain decimals), FormatFloat('f',3 and -1), ParseInt(10/16) and Atoi, plus an independent Format-driven decoder (Spec.SSA.decode) with its own tables, scalar readers and override-block scanner. Machine-checked for all inputs: every column / script-info header the writer emits is read back as the same attribute (tables injective and complete, TertiaryColour = OutlineColour), written booleans read back unchanged (true stays true) and -1 is true, an empty style field leaves the attribute unset, split-at-comma inverts join for comma-free cells and the last Format column takes the rest of the row (commas in the text preserved, for any Format), the written event time reads back truncated to the centisecond, lines without ':' / anything in an unknown section / events other than Dialogue / non-Style lines of a styles section leave the reader state unchanged, '*'-prefixed style names resolve to the style without '*', an empty cue list is refused. The whole-document clauses (read of every rendering = what the independent decoder says it denotes; write -> own reader and -> independent decoder = same cues, styles and script info; write(read(write s)) = write s) are decided on every run by the ssa.read / ssa.write streams: model vs implementation on generated ground truths x rendering choices (column permutations and subsets in both Format lines, section-name spelling, v4 / v4+, H: vs HH: times, colour radix incl. negative decimals, EOL kinds, BOM, interleaved junk / comment / non-Dialogue lines, unknown sections, sections in unusual order), mutated documents and the repository's test data, with the specification predicate evaluated on every case; ssa.style / ssa.text / ssa.colour / ssa.float tie the row decoder, the text splitter, the colour reader and the float conversions to the code function by function.",
+    "level_note": "Partial: the document-level statements are not proved in Lean (checked by correspondence + independent decoder on every generated case). Floats: ParseFloat is modelled for plain decimals up to 300 characters in the normal range (exponents, hex floats, inf/nan are counted as unmodelled); the shortest-digits search of FormatFloat(-1) is exact except at binade boundaries needing more than 17 digits. int64 wrap-around of absurd hour fields and lines that are not valid UTF-8 are outside the model (unmodelled). Pinned defects D9 (nil metadata / nil inline style panic the writer), D10 (booleans written 1, read true only for -1), D11 (runs joined with a space), D12 (map-order Format, empty fields rejected by the reader) and two further ones found here (a non-Dialogue event or a stray 'x: y' line in [Events] / [V4 Styles] made the whole read fail) are repaired by fix: commits.",
+    "technique": "Lean 4 proof of the component laws (tables by decide, row / field laws by induction) + differential correspondence with an independent Lean decoder as oracle",
+    "props": ["Astisub.Props.C04"],
+    "streams": [{"name": "ssa.read"}, {"name": "ssa.write"}, {"name": "ssa.float"},
+                {"name": "ssa.style", "needs_hooks": True}, {"name": "ssa.text", "needs_hooks": True},
+                {"name": "ssa.colour", "needs_hooks": True}],
+    "trust": ["model: SSA.read / SSA.write hand-written from the repaired ssa.go; Go/Numconv.lean models strconv float/int conversions (validated by ssa.float / ssa.colour, not proved from IEEE-754); UTF-8 transport by Lean's String.fromUTF8?/toUTF8; line splitting by the scanner model of C17"],
+    "assumptions": ["times in [0, 100 h); row fields without ',' (except the last column), line breaks or surrounding blanks; event text without stray braces; style floats whose 3-decimal rendering is exact (write clause)"],
+}
+
 NOT_APPLICABLE = {p: "not built yet in this session (work in progress; see DESIGN.md section 11 for the build order)" for p in
-                  ["C02","C03","C04","C05","C06","C07","C08","C19","C20"]}
+                  ["C03","C05","C06","C07","C08","C19","C20"]}
